@@ -272,7 +272,8 @@ func init() {
 		case "name":
 			alphabet = append(alphabet, "T.unregister", "T.register")
 		case "alias":
-			alphabet = append(alphabet, "T.unregister")
+			// further aliases of the same owner come and go: they must not disturb the watched (first) one
+			alphabet = append(alphabet, "T.unregister", "T.alias-more", "T.delalias-other")
 		case "event":
 			alphabet = append(alphabet, "T.unregister", "T.register")
 		}
@@ -289,6 +290,7 @@ func init() {
 				present := true // the target (name/alias/event) exists
 				seenN := map[string]int{}
 				tk := targetKey(kind, t)
+				var others []gen.Alias
 				for step, opi := range hist {
 					op := alphabet[opi]
 					who, what, _ := strings.Cut(op, ".")
@@ -342,6 +344,26 @@ func init() {
 						})
 						goAway("unregistered")
 						present = false
+					case who == "T" && what == "alias-more":
+						if !alive["T"] || len(others) >= 2 {
+							key = ""
+							return
+						}
+						w.Do("T", func(p *probe) error {
+							a, err := p.CreateAlias()
+							if err == nil {
+								others = append(others, a)
+							}
+							return nilErr(err)
+						})
+					case who == "T" && what == "delalias-other":
+						if !alive["T"] || len(others) == 0 {
+							key = ""
+							return
+						}
+						a := others[len(others)-1]
+						others = others[:len(others)-1]
+						w.Do("T", func(p *probe) error { return nilErr(p.DeleteAlias(a)) })
 					case who == "T" && what == "register":
 						if !alive["T"] || present {
 							key = ""
@@ -465,7 +487,7 @@ func init() {
 					rs = append(rs, r)
 				}
 				sort.Strings(rs)
-				key = fmt.Sprintf("alive=%v,%v,%v present=%v rels=%v", alive["T"], alive["O1"], alive["O2"], present, rs)
+				key = fmt.Sprintf("alive=%v,%v,%v present=%v rels=%v others=%d", alive["T"], alive["O1"], alive["O2"], present, rs, len(others))
 			}))
 			for _, f := range fails {
 				fail(f.Kind, "%s", f.Detail)
